@@ -14,7 +14,7 @@ CONE = ["Proofs/GenerateProofs.v", "Proofs/TrimMapProofs.v", "Proofs/ReprProofs.
 MODEL_FUNCTIONS = ["connect_coding_graph", "remove_useless", "latter_map_to_accessor", "accessor_to_latter_map",
                    "connect_valid_graph", "obtain_vertices", "obtain_latters", "obtain_formers"]
 RULE = ("vertex masks of order 1..5 (quick: 3000 random masks at densities 0.2..0.97 x thresholds 1..4 x bool / 0-1 int dtype; "
-        "thorough: ALL 65536 order-2 masks x thresholds 1..4, plus random masks of order 1, 3, 4, 5), masks coming from "
+        "thorough: ALL 65536 order-2 masks x thresholds 1..4, plus random masks of order 1, 3, 4, 5), chain masks of order 2..6 (consecutive k-mers of a random de Bruijn sequence of order k-1: out-degree-1 chains of up to 4^(k-1) vertices into a small branching core), masks coming from "
         "LocalBioFilters; for every case the returned accessor and vertex description are compared with an independent "
         "greatest-fixed-point + reachability oracle written with Python sets, the input mask is checked to be unmodified, a "
         "random sub-mask is checked to give a sub-graph, and for t >= 2 the latter-map trimming (remove_useless through "
@@ -51,6 +51,13 @@ def payloads(rng, tier):
             mask[v] = 1
         yield "coding_graph", {"k": k, "mask": mask, "t": rng.choice([1, d, d, max(1, d - 1), min(4, d + 1)]),
                                "dtype": rng.choice(["bool", "int"])}
+    # chain masks: one long out-degree-1 chain (consecutive k-mers of a de Bruijn sequence of order k-1) running into a small
+    # branching core -- the deepest trimming cascades / backward searches a mask of that order can produce (up to 4^(k-1) steps)
+    for kk, cnt in {"quick": [(2, 20), (3, 40), (4, 40), (5, 30), (6, 3)], "thorough": [(2, 50), (3, 200), (4, 200), (5, 200), (6, 20)],
+                    "search": [(3, 20), (4, 20), (5, 30), (6, 2)]}[tier]:
+        for _ in range(cnt):
+            yield "coding_graph", {"k": kk, "mask": gen.chain_mask(rng, kk), "t": rng.choice([1, 1, 1, 2]),
+                                   "dtype": rng.choice(["bool", "int"])}
     for i in range(n):
         k = rng.choice([1, 2, 2, 2, 3, 3, 4, 5][: kmax + 3])
         k = min(k, kmax)
